@@ -473,6 +473,7 @@ fn rect_strategy(ctx: &Ctx) -> BoxedStrategy<RectCase> {
 
 pub fn property(ctx: &Ctx) -> Property {
     let (c1, c2, c3, c4, c5) = (ctx.clone(), ctx.clone(), ctx.clone(), ctx.clone(), ctx.clone());
+    let drift_open = ctx.excluded(super::c12::DRIFT_KEY);
     Property {
         id: "C11",
         rule: "part fill: random polygon/curve paths, every source kind, 28 modes, all invertible transform classes: fill under T must equal, bit for bit, filling Path::transform(T) of the path under the identity with the source's transform preceded by T^-1 (sources live in user space); in half of the cases the source also carries an extra transform of its own, set directly in the public Source variant, so that every source kind (two-circle included) composes a non-trivial own transform with the CTM. part stroke: polylines stroked (all caps/joins/dashes) under a similarity must match stroking the transformed polyline with width, dashes and offset scaled (line width scales with T) up to one quarter-sample flip per edge. part image-under-near-identity-ctm: C13's images on 600..2048 px long surfaces under a current transform within 1e-3 of the identity (zoom 1.0004, half a milliradian of rotation, a slight shear), judged by C13's f64 oracle (a transform treated as 'close enough to a translation' drifts by whole texels there). part singular: every drawing call except mask/clear under non-invertible T changes nothing. part device: push_clip_rect (probed by an identity-transform fill), mask geometry with solid sources, copy_surface, blend_surface, blend_surface_with_alpha give identical pixels under any T. part restore: get_transform() is bit-equal after clear() and pop_layer (with/without clip) and a following draw equals the draw with T re-set. part rect: fill_rect (integer and fractional rectangles) and draw_image_at under any T, half of them translations with each axis zero / whole / fractional on its own, must equal, bit for bit, filling PathBuilder::rect of the same rectangle (with the translated image source) under the same T. parts gradient-under-ctm / image-under-ctm: C12's gradient cases and C13's image cases with a non-identity current transform (incl. mirrored, sheared and zoomed user spaces), colour judged absolutely at T^-1 of the pixel centre by those properties' oracles. Non-trivial: T not identity/integer translation (fill), scale away from 1 (stroke), non-identity T (device/restore); distinct by hash of the case.",
@@ -492,7 +493,7 @@ pub fn property(ctx: &Ctx) -> Property {
             // from it; these two parts judge the colour absolutely, with C12's gradient oracle and C13's image
             // oracle, on cases whose current transform is not the identity
             part("rect", 40_000, 600_000, move || rect_strategy(&c5), check_rect),
-            part("gradient-under-ctm", 12_000, 200_000, move || super::c12::strategy(&c4).prop_filter("non-identity CTM", |c| c.ctm != IDENT).boxed(), super::c12::check),
+            part("gradient-under-ctm", 12_000, 200_000, move || super::c12::strategy(&c4).prop_filter("non-identity CTM", |c| c.ctm != IDENT).boxed(), move |k| super::c12::check_with(k, drift_open)),
             part("image-under-ctm", 20_000, 300_000, || super::c13::strategy().prop_filter("non-identity CTM", |c| c.ctm != IDENT).boxed(), super::c13::check),
             part("image-under-near-identity-ctm", 1_500, 30_000, || super::c13::near_identity_strategy().prop_filter("non-identity CTM", |c| c.ctm != IDENT).boxed(), super::c13::check),
         ],
